@@ -129,6 +129,9 @@ func TestBatches(t *testing.T) {
 		// (the caller's slice is left alone afterwards: whether a constructor may keep referring to the slice it was given is
 		// not something this property decides)
 
+		// in half the cases the wire path decodes every batch of the case into ONE request object (a per-connection object)
+		reuseDecodeTarget := rapid.Bool().Draw(t, "reuseDecodeTarget")
+		decodeTarget := new(batched.BatchedTokenRequest)
 		// several batches are evaluated by the SAME batch issuer object, one after the other
 		nBatches := gen.UniformRange(t, 1, 3, "batches")
 		for batchNo := 0; batchNo < nBatches; batchNo++ {
@@ -296,6 +299,9 @@ func TestBatches(t *testing.T) {
 				if wire {
 					enc := append([]byte{}, br.Marshal()...)
 					br = new(batched.BatchedTokenRequest)
+					if reuseDecodeTarget {
+						br = decodeTarget // the connection's request object, decoded into again and again
+					}
 					if !br.Unmarshal(enc) {
 						return nil, "batch request does not decode"
 					}
